@@ -71,6 +71,21 @@ func TestGen(t *testing.T) {
 }
 `
 
+// isF43: the generator's code for a TL2-origin dictionary whose value type is a Maybe calls WriteTL1Boxed/ReadTL1Boxed on
+// the Maybe type, which has neither (known finding F43).
+func isF43(msg string) bool {
+	return strings.Contains(msg, "has no field or method WriteTL1Boxed") || strings.Contains(msg, "has no field or method ReadTL1Boxed")
+}
+
+func findingKnown(id string) bool {
+	for _, f := range loadFindings() {
+		if f.ID == id && f.Status == "known" {
+			return true
+		}
+	}
+	return false
+}
+
 type pairResult struct {
 	Binary  string
 	Refused bool   // migration did not accept the pair
@@ -105,6 +120,31 @@ func pairBuild(name, text, wl string) (pairResult, error) {
 		res.Refused = true
 		return res, nil
 	}
+	newFiles := []string{filepath.Join(newDir, "schema.tl")}
+	if _, err := os.Stat(filepath.Join(newDir, "schema.tl2")); err == nil {
+		newFiles = append(newFiles, filepath.Join(newDir, "schema.tl2"))
+	}
+	bin, broken, err := pairCompile(name, P, []string{filepath.Join(oldDir, "schema.tl")}, newFiles, wl, "migration accepted the schema, but")
+	if err != nil {
+		return res, err
+	}
+	res.Binary, res.Broken = bin, broken
+	return res, nil
+}
+
+// pairCompile generates Go code for two schema versions (sides a and b) under P/verifrun, links both with the pair glue
+// into one test binary. broken != "" when side b does not generate or compile (what that means is the caller's business).
+func pairCompile(name, P string, filesA, filesB []string, wl, blame string) (bin string, broken string, err error) {
+	tl2gen, err := buildTool("tl2gen")
+	if err != nil {
+		return "", "", err
+	}
+	mod := filepath.Join(P, "verifrun")
+	for _, d := range []string{mod, filepath.Join(P, "pkg", "basictl")} {
+		if err := os.MkdirAll(d, 0o755); err != nil {
+			return "", "", err
+		}
+	}
 	gomod := "module github.com/VKCOM/tl/verifrun\n\ngo 1.24.0\n\nrequire (\n\tgithub.com/VKCOM/tl v0.0.0\n\tgithub.com/VKCOM/tl/verifh v0.0.0\n\tpgregory.net/rapid v1.3.0\n)\n\nreplace github.com/VKCOM/tl => /repo\n\nreplace github.com/VKCOM/tl/verifh => /verif/h\n"
 	os.WriteFile(filepath.Join(mod, "go.mod"), []byte(gomod), 0o644)
 	sum, _ := os.ReadFile("/verif/h/go.sum")
@@ -115,16 +155,11 @@ func pairBuild(name, text, wl string) (pairResult, error) {
 		o, code, _ := runCmd(mod, nil, 10*time.Minute, tl2gen, append(args, files...)...)
 		return o, code
 	}
-	if o, code := gen("a", []string{filepath.Join(oldDir, "schema.tl")}); code != 0 {
-		return res, fmt.Errorf("tl2gen rejects the original schema with whitelist %q:\n%s", wl, tail(o, 20))
+	if o, code := gen("a", filesA); code != 0 {
+		return "", "", fmt.Errorf("tl2gen rejects side a of pair %s with whitelist %q:\n%s", name, wl, tail(o, 20))
 	}
-	newFiles := []string{filepath.Join(newDir, "schema.tl")}
-	if _, err := os.Stat(filepath.Join(newDir, "schema.tl2")); err == nil {
-		newFiles = append(newFiles, filepath.Join(newDir, "schema.tl2"))
-	}
-	if o, code := gen("b", newFiles); code != 0 {
-		res.Broken = "migration accepted the schema, but tl2gen --language=go rejects what it produced:\n" + tail(o, 25)
-		return res, nil
+	if o, code := gen("b", filesB); code != 0 {
+		return "", blame + " tl2gen --language=go rejects what it produced:\n" + tail(o, 25), nil
 	}
 	glue := strings.ReplaceAll(pairGlue, "NAME", name)
 	for side, key := range map[string]string{"a": "BYTESA", "b": "BYTESB"} {
@@ -137,14 +172,13 @@ func pairBuild(name, text, wl string) (pairResult, error) {
 	tdir := filepath.Join(mod, name+"_t")
 	os.MkdirAll(tdir, 0o755)
 	if err := os.WriteFile(filepath.Join(tdir, "main_test.go"), []byte(glue), 0o644); err != nil {
-		return res, err
+		return "", "", err
 	}
-	res.Binary = filepath.Join(workDir, name+".pair.test")
-	if o, code, _ := runCmd(mod, nil, 20*time.Minute, goBin, "test", "-c", "-o", res.Binary, "./"+name+"_t"); code != 0 {
-		res.Binary = ""
-		res.Broken = "migration accepted the schema, but the code generated from what it produced does not compile:\n" + tail(o, 30)
+	bin = filepath.Join(workDir, name+".pair.test")
+	if o, code, _ := runCmd(mod, nil, 20*time.Minute, goBin, "test", "-c", "-o", bin, "./"+name+"_t"); code != 0 {
+		return "", blame + " the code generated from what it produced does not compile:\n" + tail(o, 30), nil
 	}
-	return res, nil
+	return bin, "", nil
 }
 
 // pairCandidates: whitelists worth trying for a schema, most specific first.
@@ -277,6 +311,10 @@ func init() {
 					res, err := pairBuild(name, j.text, wl)
 					if err != nil {
 						return nil, err
+					}
+					if res.Broken != "" && isF43(res.Broken) && findingKnown("F43") {
+						fmt.Printf("KNOWN-FINDING: property=%s F43 (pair %s skipped): code generated from the migrated schema does not compile (dictionary of Maybe)\n", id, name)
+						continue
 					}
 					if res.Broken != "" {
 						path := writePairBuildReplay(id, name, j.text, wl, res.Broken)
